@@ -24,6 +24,8 @@ pub struct FnClauses {
     pub closures: BTreeMap<usize, String>,
     pub hints: Vec<(bool, String, String)>,
     pub no_canary: bool,
+    /// `@loops N`: the function has N loops in all (some verify without a loop contract); default: the number of `@loop` entries
+    pub expected_loops: Option<usize>,
 }
 
 enum Cur {
@@ -71,6 +73,10 @@ pub fn parse(text: &str) -> Result<BTreeMap<String, FnClauses>, String> {
                 }
                 "@no_canary" => {
                     f.no_canary = true;
+                    Cur::None
+                }
+                "@loops" => {
+                    f.expected_loops = Some(arg.parse().map_err(|_| format!("line {}: @loops <count>", ln + 1))?);
                     Cur::None
                 }
                 "@requires" => Cur::Requires,
